@@ -1,2 +1,26 @@
-(* C15 -- theorem statements are being added; see DESIGN.md. *)
-From HS Require Import Lib.Base.
+(* C15 -- HEAD mirrors GET without touching entity data. *)
+From HS Require Import Lib.Base Model.Body Model.Serve Proofs.ServeP Proofs.ServeProps.
+
+(* For any request, entity, clock and date oracle: the response to the request sent with HEAD
+   has the same status and the same header list (Content-Length, Content-Range, the multipart
+   Content-Type included) as the response to it sent with GET; the body plan is the GET plan
+   with every entity-reading body replaced by the empty body. *)
+Theorem c15_head_mirrors_get : forall fmt_date parse_date now ent req,
+  serve_model fmt_date parse_date now ent (with_meth HEAD req) =
+  match serve_model fmt_date parse_date now ent (with_meth GET req) with
+  | Ok g => Ok {| status := status g; hdrs := hdrs g; rplan := head_plan (rplan g) |}
+  | Panic t => Panic t
+  end.
+Proof. exact head_mirrors_get. Qed.
+
+(* Serving HEAD never asks the entity for body bytes (no get_range call is made at serve time,
+   and a Once body makes none later), and for 200 / 206 / 304 / 416 the body is empty. *)
+Theorem c15_head_reads_nothing : forall fmt_date parse_date now ent req r streams,
+  e_len ent < U64 -> r_meth req = HEAD ->
+  serve_model fmt_date parse_date now ent req = Ok r ->
+  snd (body_init streams (rplan r)) = [] /\
+  (In (status r) [200; 206; 304; 416] -> rplan r = PlOnce None).
+Proof. exact head_reads_nothing. Qed.
+
+Print Assumptions c15_head_mirrors_get.
+Print Assumptions c15_head_reads_nothing.
